@@ -24,7 +24,7 @@ import z3
 
 from . import sym as S
 from .path import Infeasible, Path, PathEnd
-from .sym import (ExcVal, SBool, SBytes, SBytesIO, SInt, SItems, SMap, SObj, SRange, SReal, SSeq, Sym, T, Ty, Unsupported, concrete_of,
+from .sym import (ExcVal, SBool, SBytes, SBytesIO, SInt, SItems, SMap, SObj, SRange, SReal, SRef, SSeq, Sym, T, Ty, Unsupported, concrete_of,
                   simp, to_z3, wrap)
 
 # ----------------------------------------------------------------------------- control flow
@@ -254,6 +254,7 @@ class Interp:
         self.frame_stack = []
         self.ghost = {}  # ghost values visible to clauses (external clock readings, ...)
         self.ghost_clock = []
+        self._time0 = None
         self.functions_seen = {}  # qualname -> FnInfo (for evidence)
         self.assumed_calls = set()  # contracts used at call sites
         self.inlined = set()
@@ -289,6 +290,8 @@ class Interp:
             if v.size is None:
                 raise Unsupported("truth value of a dict without a size model")
             return simp(v.size > 0)
+        if isinstance(v, SRef):
+            return simp(v.id != 0)
         if isinstance(v, SObj):
             for nm in ("__bool__", "__len__"):
                 f = self.class_lookup(v.cls, nm)
@@ -822,6 +825,11 @@ class Interp:
                 frame.locals[nm] = new
         for base, attr in sorted(attrs):
             obj = frame.locals.get(base)
+            if isinstance(obj, SRef):
+                clsname, decl = self.reg.heap_decl(obj.cls)
+                if decl and attr in decl:
+                    self.path.heap[(clsname, attr)] = z3.Const(self.path.fresh_name(f"heap_{attr}"), z3.ArraySort(S.IntS, S.sort_of(decl[attr])))
+                continue
             if isinstance(obj, SObj) and attr in obj.fields:
                 key = f"{base}.{attr}"
                 if key in lc.types:
@@ -938,7 +946,27 @@ class Interp:
     def ex_Constant(self, e, frame):
         return e.value
 
+    def clock0(self):
+        """time_0: the external clock when the function was entered (no reading yet); time_last starts there"""
+        if self._time0 is None:
+            self._time0 = z3.Real(self.path.fresh_name("time_0"))
+            self.ghost["time_0"] = SReal(self._time0)
+            self.ghost.setdefault("time_last", SReal(self._time0))
+            if self.ghost_clock:
+                self.path.assume(self.ghost_clock[0] >= self._time0)
+        return self._time0
+
     def ex_Name(self, e, frame):
+        if self.spec and e.id in ("time_last", "time_0") and e.id not in self.ghost:
+            self.clock0()
+        if self.spec and e.id in self.ghost:
+            # ghost values (clock readings) are visible to every clause, loop invariants included
+            f = frame
+            while f is not None:
+                if e.id in f.locals:
+                    return f.locals[e.id]
+                f = f.parent
+            return self.ghost[e.id]
         return frame.lookup(e.id)
 
     def ex_Await(self, e, frame):
@@ -1243,6 +1271,9 @@ def fresh_value(I: Interp, ty: Ty, hint="v"):
         p.add_pool(n)
         p.assume(n >= 0)
         res = SSeq(arr, n, ty.ety, ty.seqkind)
+        if getattr(ty, "index_terms", False):
+            # the elements are themselves used as instantiation terms (e.g. a ghost sequence of object ids)
+            p.term_maps.append(lambda t, arr=arr: z3.Select(arr, t))
         if getattr(ty, "indexed", False):
             mem = z3.Const(p.fresh_name(hint + "_mem"), z3.ArraySort(S.IntS, S.BoolS))
             lpos = z3.Const(p.fresh_name(hint + "_lpos"), z3.ArraySort(S.IntS, S.IntS))
@@ -1293,6 +1324,15 @@ def fresh_value(I: Interp, ty: Ty, hint="v"):
 
             attach_key_order(I, m, hint)
         return m
+    if k == "ref":
+        from .models import heap_fresh_ref
+
+        cls = I.reg.resolve(ty.cls)
+        if ty.nullable:
+            d = p.choose(2, note=f"ref-none:{hint}")
+            if d == 1:
+                return None
+        return heap_fresh_ref(I, cls, ty.cls, hint)
     if k == "bytesio":
         buf = z3.Const(p.fresh_name(hint + "_buf"), S.SeqI)
         pos = p.fresh_int(hint + "_pos")
